@@ -50,6 +50,25 @@ let () =
       let l = desc_op_requests o (plain = "1") base (unh hd) (unh ha) (unh hn) in
       Printf.printf "%s REQS%s\n" id
         (String.concat "" (List.map (fun (m, u) -> " " ^ hex_of_str m ^ ":" ^ hex_of_str u) l))
+    | [id; "N"; "repo"; h; _] ->
+      let s = if h = "-" then [] else str_of_hex h in
+      (match new_repository avail go_vr s with
+       | Some r -> Printf.printf "%s %s\n" id (show_verdict (VOk r))
+       | None -> Printf.printf "%s ERR\n" id)
+    | [id; "N"; "reg"; hn; hs] ->
+      let unh h = if h = "-" then [] else str_of_hex h in
+      (match new_registry go_vr (unh hn) with
+       | None -> Printf.printf "%s ERR\n" id
+       | Some reg ->
+         (match registry_repository reg (unh hs) with
+          | Some r -> Printf.printf "%s %s\n" id (show_verdict (VOk r))
+          | None -> Printf.printf "%s REGOK\n" id))
+    | [id; "E"; op; plain; hr; hl; hn] ->
+      let unh h = if h = "-" then [] else str_of_hex h in
+      let o = match op with "rping" -> RPing | "rcatalog" -> RCatalog | _ -> failwith "regop" in
+      let l = reg_op_requests o (plain = "1") (unh hr) (unh hl) (unh hn) in
+      Printf.printf "%s REQS%s\n" id
+        (String.concat "" (List.map (fun (m, u) -> " " ^ hex_of_str m ^ ":" ^ hex_of_str u) l))
     | [id; "G"; h] ->
       let reg = if h = "-" then [] else str_of_hex h in
       (match go_registry_verdict reg with
